@@ -67,7 +67,14 @@ def setup_state(eng: Engine, contract: Contract, fi):
         args[sp[1]] = flag
         eng.sentinel_flags = {str(args[sp[0]].term): flag.term}
     if a.vararg or a.kwarg:
-        raise Unsupported("*args/**kwargs in verified function")
+        if not getattr(contract, "opaque_varargs", False):
+            raise Unsupported("*args/**kwargs in verified function")
+        from .types import Atom
+        for prm, tyname in ((a.vararg, "VarArgs"), (a.kwarg, "KwArgs")):
+            if prm is not None:     # handed through unchanged to callees with assumed contracts, never inspected
+                v = mk_fresh(Atom(tyname), prm.arg)
+                st.env[prm.arg] = v
+                args[prm.arg] = v
     if self_ref is not None:
         def follow(path):
             ref = self_ref
